@@ -108,6 +108,10 @@ def gen_pipeline(scratch, gen_dir):
     out.append("/-- passes that return immediately when an earlier pass has reported errors -/")
     out.append("def passesSkippedAfterErrors : List String := [" + ", ".join(f'"{p}"' for p in sorted(passes.get("earlyReturn", []))) + "]")
     out.append("")
+    ge = facts(scratch, "generrors")
+    out.append("/-- every place where a generator package constructs an error of its own: (package, function, constructor) -/")
+    out.append("def generatorErrorSites : List (String × String × String) := [" + ", ".join(f'("{e["pkg"].split("/tooling/")[-1]}", "{e["func"]}", "{e["site"]}")' for e in ge) + "]")
+    out.append("")
     out.append("/-- hash of the body (as printed by go/printer) of every validation pass -/")
     bh = passes.get("bodyHash", {})
     out.append("def passBodyHash : List (String × String) := [" + ", ".join(f'("{p}", "{bh.get(p, "?")}")' for p in passes.get("passes", [])) + "]")
